@@ -2,7 +2,10 @@
 
 Decided:
   R22.1 decision table of ``Block.client_connected`` by *interpreting* the method (mitmlint.pyint via the LayerInterp harness: helper
-        functions / methods, loops over rule tables, match, getattr are all just Python) over an abstract ``ipaddress`` module:
+        functions / methods, loops over rule tables - also tables completed by later module-level statements (``T = {}; T["k"] = f``,
+        ``.update``, ``+=``, a top-level ``for`` / ``if``: _helpers_C.ModuleInitMixin) -, lambdas / attrgetter rows, match, getattr are
+        all just Python) over an abstract ``ipaddress`` module (``ip_address`` and the ``IPv4Address`` / ``IPv6Address`` constructors
+        with the library's ``AddressValueError`` < ``ValueError``):
         {address kind: IPv4, plain IPv6, IPv4-mapped IPv6; the IPv6 kinds with and without zone id} x {is_loopback} x
         {every ProxyMode subclass of mode_specs.py} x {block_private} x {is_private} x {block_global} x {is_global}:
         ``client.error`` ends up set (truthy)  <=>  not (loopback or LocalMode) and ((block_private and private) or
@@ -30,6 +33,7 @@ hands its connections to ``handle_client`` (mode_servers.py), and addons that cl
 from __future__ import annotations
 
 import ast
+import ipaddress as _ipaddress  # (the library's exception hierarchy and, in R22.4, its classification: trusted base)
 import itertools
 
 from ..core import AnalysisError
@@ -44,7 +48,7 @@ from ._helpers_C import CachedModel
 from ._helpers_C import check_hook_naming
 from ._helpers_C import default_addon_order
 from ._helpers_C import hook_name
-from ._helpers_C import LayerInterp
+from ._helpers_C import InitLayerInterp as LayerInterp  # (+ module-level initialisation statements: rule tables built in steps)
 from ._helpers_C import Opaque
 from ._helpers_C import OpenRec
 from ._helpers_C import Raised
@@ -132,30 +136,53 @@ class _AbsV6(_AbsAddress):
 
     @property
     def ipv4_mapped(self):
-        return _AbsV4(self._w, "embedded") if self._role == "wrapper" else None
+        return self._w.ipmod.IPv4Address(None, "embedded") if self._role == "wrapper" else None
 
 
 class _AbsIpaddress:
-    """The part of the ``ipaddress`` module the decision may use, over the abstract domain."""
+    """The part of the ``ipaddress`` module the decision may use, over the abstract domain: ``ip_address(text)`` and the two address
+    classes - as constructors (``IPv4Address(text)`` / ``IPv6Address(text)`` raise ``AddressValueError``, a ``ValueError``, for the other
+    family, exactly like the library: "try IPv4, else IPv6" is a legitimate way to parse) and as isinstance targets."""
 
-    IPv4Address = _AbsV4
-    IPv6Address = _AbsV6
+    AddressValueError = _ipaddress.AddressValueError
 
     def __init__(self, world):
         self._w = world
+        world.ipmod = self
+        mod = self
 
-    def ip_address(self, text):
+        class IPv4Address(_AbsV4):
+            _abstract_ok = True  # (LayerInterp: a library callable that may be handed abstract values)
+
+            def __init__(self, text, _role=None):
+                _AbsAddress.__init__(self, world, _role or mod._parse(text, 4, "IPv4Address()"))
+
+        class IPv6Address(_AbsV6):
+            _abstract_ok = True
+
+            def __init__(self, text, _role=None):
+                _AbsAddress.__init__(self, world, _role or mod._parse(text, 6, "IPv6Address()"))
+
+        self.IPv4Address, self.IPv6Address = IPv4Address, IPv6Address
+
+    def _parse(self, text, version, what):
+        """role of the address object ``text`` parses to (``version``: 4 | 6 | None = whichever family) - or the library's exception"""
         w = self._w
         kind = w.cell["kind"]
         host = HOST4 if kind == "v4" else HOST6
         if not isinstance(text, str):
-            raise AnalysisError(f"Block.client_connected: ip_address() of an unmodelled value {text!r}")
+            raise AnalysisError(f"Block.client_connected: {what} of an unmodelled value {text!r}")
+        exc = "ValueError" if version is None else "AddressValueError"
+        if version is not None and version != (4 if kind == "v4" else 6):
+            raise Raised(exc, f"{text!r} is not an IPv{version} address")  # a probe of the other family: not a problem by itself
         if text not in (host, f"{host}%{ZONE}") or (text != host and not kind.endswith("z")):
-            w.problems.append("ip_address() is applied to the zone id / a wrong element of the split peername, not to the address")
-            raise Raised("ValueError", f"{text!r} does not appear to be an IPv4 or IPv6 address")
-        if kind == "v4":
-            return _AbsV4(w, "plain")
-        return _AbsV6(w, "wrapper" if kind.startswith("v6mapped") else "plain")
+            w.problems.append(f"{what} is applied to the zone id / a wrong element of the split peername, not to the address")
+            raise Raised(exc, f"{text!r} does not appear to be an IPv4 or IPv6 address")
+        return "plain" if kind == "v4" else ("wrapper" if kind.startswith("v6mapped") else "plain")
+
+    def ip_address(self, text):
+        role = self._parse(text, None, "ip_address()")
+        return self.IPv4Address(None, role) if self._w.cell["kind"] == "v4" else self.IPv6Address(None, role)
 
     ip_address._abstract_ok = True  # (LayerInterp: may be handed abstract values)
 
@@ -201,6 +228,7 @@ def r22_1(ctx, meth):
             cell0 = {"kind": kind, "is_loopback": lb, "is_private": pr, "is_global": gl}
             world = _World(cell0)
             interp = LayerInterp(cm, trusted_modules={"ipaddress": _AbsIpaddress(world)})
+            interp._exc_registry()["AddressValueError"] = _ipaddress.AddressValueError  # `except ValueError` catches it
             for mode in modes:
                 for bp, bg in itertools.product((False, True), repeat=2):
                     cell = dict(cell0, mode=mode, block_private=bp, block_global=bg)
